@@ -28,6 +28,9 @@ type Enc struct {
 	Off map[string]bool // switched-off dimensions (known findings)
 	// SymLowestOnly forces the lowest SID for a text.
 	SymLowestOnly bool
+	// UndefinedSlots: a symbol with unknown text may be encoded with the ID of a
+	// slot whose text is undefined (not only 0).
+	UndefinedSlots bool
 }
 
 // NewEnc makes an encoder; nil chooser = canonical.
@@ -180,6 +183,15 @@ func (m *MissingSymbolError) Error() string {
 
 func (e *Enc) sid(s model.Sym, tab *SymTab) (uint64, error) {
 	if !s.Known {
+		if e.UndefinedSlots {
+			ids := []int{0}
+			for i := 1; i < len(tab.Slots); i++ {
+				if !tab.Slots[i].Known {
+					ids = append(ids, i)
+				}
+			}
+			return uint64(ids[e.C.Intn(len(ids))]), nil
+		}
 		return 0, nil
 	}
 	ids := tab.FindAll(s.Text)
